@@ -78,6 +78,16 @@ class Run:
             entry = known.get((self.prop, key))
             if entry is not None and entry.get("status") == "known":
                 known_hits.append((o, entry))
+                # a finding recorded with the sites it originates from covers those sites only
+                if "origins" in entry and o.get("origins") is not None:
+                    for org in sorted(set(o["origins"]) - set(entry["origins"])):
+                        v = dict(o)
+                        v["key"] = f"{key}|origin={org}"
+                        v["what"] = f"{o['what']} -- NEW origin, not part of the recorded finding: {org}"
+                        if known.get((self.prop, v["key"]), {}).get("status") == "known":
+                            known_hits.append((v, known[(self.prop, v["key"])]))
+                        else:
+                            violations.append(v)
             else:
                 violations.append(o)
         for inc in self.inconclusives:
